@@ -1,1 +1,433 @@
-// placeholder
+//! Writer of the KyTea binary model layout (as the converter's reader expects it) together with
+//! the ground truth the converted model must contain.
+
+use std::collections::BTreeMap;
+
+use crate::mirror::{ModelData, NgramData, WordWeightRecord};
+use crate::rng::Rng;
+use crate::text;
+
+#[derive(Clone, Debug)]
+pub struct KyteaSpec {
+    pub char_w: u8,
+    pub type_w: u8,
+    pub dict_n: u8,
+    pub n_tags: u32,
+    pub char_map: Vec<char>,
+    pub char_ngrams: Vec<(Vec<char>, Vec<i16>)>,
+    /// type n-grams over the letters D R H T K O (and possibly U+0004, which must be skipped)
+    pub type_ngrams: Vec<(Vec<char>, Vec<i16>)>,
+    pub bias: i16,
+    pub n_dicts: u8,
+    pub dict_vec: Vec<i16>,
+    pub words: Vec<(Vec<char>, u8)>,
+    /// extra weights stored after the ones the window needs (must be ignored)
+    pub extra_weights: usize,
+    pub with_subword_dict: bool,
+    pub with_self_dict: bool,
+    pub trailing: Vec<u8>,
+}
+
+struct Out(Vec<u8>);
+
+impl Out {
+    fn u8(&mut self, x: u8) {
+        self.0.push(x);
+    }
+    fn u16(&mut self, x: u16) {
+        self.0.extend_from_slice(&x.to_le_bytes());
+    }
+    fn i16(&mut self, x: i16) {
+        self.0.extend_from_slice(&x.to_le_bytes());
+    }
+    fn u32(&mut self, x: u32) {
+        self.0.extend_from_slice(&x.to_le_bytes());
+    }
+    fn i32(&mut self, x: i32) {
+        self.0.extend_from_slice(&x.to_le_bytes());
+    }
+    fn f64(&mut self, x: f64) {
+        self.0.extend_from_slice(&x.to_le_bytes());
+    }
+}
+
+struct Trie {
+    /// per state: gotos (char -> state), entry index if a word ends here
+    gotos: Vec<BTreeMap<char, usize>>,
+    entry: Vec<Option<usize>>,
+}
+
+impl Trie {
+    fn build(words: &[Vec<char>]) -> Trie {
+        let mut t = Trie { gotos: vec![BTreeMap::new()], entry: vec![None] };
+        for (i, w) in words.iter().enumerate() {
+            let mut s = 0;
+            for &c in w {
+                let next = match t.gotos[s].get(&c) {
+                    Some(&n) => n,
+                    None => {
+                        t.gotos.push(BTreeMap::new());
+                        t.entry.push(None);
+                        let n = t.gotos.len() - 1;
+                        t.gotos[s].insert(c, n);
+                        n
+                    }
+                };
+                s = next;
+            }
+            t.entry[s] = Some(i);
+        }
+        t
+    }
+}
+
+impl KyteaSpec {
+    fn cidx(&self, c: char) -> u16 {
+        (self.char_map.iter().position(|&x| x == c).expect("char in map") + 1) as u16
+    }
+
+    fn string(&self, o: &mut Out, s: &[char]) {
+        o.u32(s.len() as u32);
+        for &c in s {
+            o.u16(self.cidx(c));
+        }
+    }
+
+    /// Emits a Dictionary<T>; `emit_entry` writes entry i. States carry hostile-but-legal details:
+    /// gotos in reverse order, interior states with suffix outputs and is_branch = false.
+    fn dictionary(&self, o: &mut Out, n_dicts: u8, words: &[Vec<char>], emit_entry: &mut dyn FnMut(&mut Out, usize)) {
+        o.u8(n_dicts);
+        if words.is_empty() {
+            o.u32(0);
+            return;
+        }
+        let t = Trie::build(words);
+        o.u32(t.gotos.len() as u32);
+        for s in 0..t.gotos.len() {
+            o.u32(0); // failure link (unused by the converter)
+            o.u32(t.gotos[s].len() as u32);
+            for (&c, &n) in t.gotos[s].iter().rev() {
+                o.u16(self.cidx(c));
+                o.u32(n as u32);
+            }
+            match t.entry[s] {
+                Some(e) => {
+                    o.u32(2);
+                    o.u32(e as u32);
+                    o.u32(0); // a suffix output after the own one
+                    o.u8(1);
+                }
+                None => {
+                    if s != 0 && s % 2 == 0 {
+                        // outputs inherited from suffixes on a state that is not a word end
+                        o.u32(1);
+                        o.u32(0);
+                    } else {
+                        o.u32(0);
+                    }
+                    o.u8(0);
+                }
+            }
+        }
+        o.u32(words.len() as u32);
+        for i in 0..words.len() {
+            emit_entry(o, i);
+        }
+    }
+
+    fn linear_model_none(&self, o: &mut Out) {
+        o.u32(0);
+    }
+
+    fn linear_model_inactive(&self, o: &mut Out) {
+        o.u32(2);
+        o.u8(1);
+        o.i32(1);
+        o.i32(-1);
+        o.u8(1);
+        o.f64(0.5);
+        o.u8(0); // feature lookup inactive
+    }
+
+    pub fn emit(&self) -> Vec<u8> {
+        let mut o = Out(vec![]);
+        o.0.extend_from_slice(b"KyTea 0.4.0 B utf8\n");
+        o.u8(1);
+        o.u8(u8::from(self.n_tags > 0));
+        o.u32(self.n_tags);
+        o.u8(self.char_w);
+        o.u8(3);
+        o.u8(self.type_w);
+        o.u8(3);
+        o.u8(self.dict_n);
+        o.u8(1);
+        o.f64(f64::INFINITY);
+        o.u8(5);
+        let cm: String = self.char_map.iter().collect();
+        o.0.extend_from_slice(cm.as_bytes());
+        o.u8(0);
+        // word segmentation model
+        o.u32(2);
+        o.u8(1);
+        o.i32(1);
+        o.i32(-1);
+        o.u8(1);
+        o.f64(0.01);
+        o.u8(1); // feature lookup active
+        let cw: Vec<Vec<char>> = self.char_ngrams.iter().map(|x| x.0.clone()).collect();
+        self.dictionary(&mut o, 0, &cw, &mut |o, i| {
+            let w = &self.char_ngrams[i].1;
+            o.u32((w.len() + self.extra_weights) as u32);
+            for &x in w {
+                o.i16(x);
+            }
+            for k in 0..self.extra_weights {
+                o.i16(1000 + k as i16);
+            }
+        });
+        let tw: Vec<Vec<char>> = self.type_ngrams.iter().map(|x| x.0.clone()).collect();
+        self.dictionary(&mut o, 0, &tw, &mut |o, i| {
+            let w = &self.type_ngrams[i].1;
+            o.u32((w.len() + self.extra_weights) as u32);
+            for &x in w {
+                o.i16(x);
+            }
+            for k in 0..self.extra_weights {
+                o.i16(2000 + k as i16);
+            }
+        });
+        if self.with_self_dict && !cw.is_empty() {
+            self.dictionary(&mut o, 0, &cw[..1], &mut |o, _| {
+                o.u32(1);
+                o.i16(7);
+            });
+        } else {
+            self.dictionary(&mut o, 0, &[], &mut |_, _| {});
+        }
+        o.u32(self.dict_vec.len() as u32);
+        for &x in &self.dict_vec {
+            o.i16(x);
+        }
+        o.u32(1);
+        o.i16(self.bias);
+        o.u32(2); // tag_dict_vec
+        o.i16(11);
+        o.i16(12);
+        o.u32(1); // tag_unk_vec
+        o.i16(13);
+        // global tags
+        let tagname: Vec<char> = vec![self.char_map[0]];
+        for t in 0..self.n_tags {
+            o.u32(2);
+            self.string(&mut o, &tagname);
+            self.string(&mut o, &[]);
+            if t % 2 == 0 {
+                self.linear_model_none(&mut o);
+            } else {
+                self.linear_model_inactive(&mut o);
+            }
+        }
+        // word dictionary
+        let ww: Vec<Vec<char>> = self.words.iter().map(|x| x.0.clone()).collect();
+        self.dictionary(&mut o, self.n_dicts, &ww, &mut |o, i| {
+            self.string(o, &self.words[i].0);
+            for t in 0..self.n_tags {
+                let n = (i as u32 + t) % 3;
+                o.u32(n);
+                for k in 0..n {
+                    self.string(o, &tagname);
+                    o.u8(k as u8);
+                }
+            }
+            o.u8(self.words[i].1);
+            for t in 0..self.n_tags {
+                if (i as u32 + t) % 2 == 0 {
+                    self.linear_model_none(o);
+                } else {
+                    self.linear_model_inactive(o);
+                }
+            }
+        });
+        // sub-word dictionary
+        if self.with_subword_dict && !ww.is_empty() {
+            self.dictionary(&mut o, 1, &ww[..1], &mut |o, _| {
+                self.string(o, &self.words[0].0);
+                for _ in 0..self.n_tags {
+                    o.u32(1);
+                    self.string(o, &tagname);
+                    o.f64(0.25);
+                }
+            });
+        } else {
+            self.dictionary(&mut o, 0, &[], &mut |_, _| {});
+        }
+        o.0.extend_from_slice(&self.trailing);
+        o.0
+    }
+
+    /// Number of bytes the reader consumes (everything but the trailing bytes).
+    pub fn consumed_len(&self) -> usize {
+        self.emit().len() - self.trailing.len()
+    }
+
+    /// The model the converter must produce.
+    pub fn expected(&self) -> ModelData {
+        let mut char_ngram_model: Vec<NgramData<String>> = self
+            .char_ngrams
+            .iter()
+            .map(|(g, w)| NgramData { ngram: g.iter().collect(), weights: w.iter().map(|&x| i32::from(x)).collect() })
+            .collect();
+        char_ngram_model.sort_by(|a, b| a.ngram.cmp(&b.ngram));
+        let code = |c: char| match c {
+            'D' => 1u8,
+            'R' => 2,
+            'H' => 3,
+            'T' => 4,
+            'K' => 5,
+            'O' => 6,
+            _ => 0,
+        };
+        let mut type_ngram_model: Vec<NgramData<Vec<u8>>> = self
+            .type_ngrams
+            .iter()
+            .filter(|(g, _)| !g.contains(&'\u{4}'))
+            .map(|(g, w)| NgramData { ngram: g.iter().map(|&c| code(c)).collect(), weights: w.iter().map(|&x| i32::from(x)).collect() })
+            .collect();
+        type_ngram_model.sort_by(|a, b| a.ngram.cmp(&b.ngram));
+        let mut dict_model: Vec<WordWeightRecord> = self
+            .words
+            .iter()
+            .map(|(w, mask)| {
+                let idx = w.len().min(usize::from(self.dict_n)) - 1;
+                let (mut l, mut i, mut r) = (0i32, 0i32, 0i32);
+                for j in 0..usize::from(self.n_dicts) {
+                    if (mask >> j) & 1 == 1 {
+                        let off = 3 * usize::from(self.dict_n) * j + 3 * idx;
+                        l += i32::from(self.dict_vec[off]);
+                        i += i32::from(self.dict_vec[off + 1]);
+                        r += i32::from(self.dict_vec[off + 2]);
+                    }
+                }
+                let mut weights = vec![i; w.len() + 1];
+                weights[0] = l;
+                *weights.last_mut().unwrap() = r;
+                WordWeightRecord { word: w.iter().collect(), weights, comment: String::new() }
+            })
+            .collect();
+        dict_model.sort_by(|a, b| a.word.cmp(&b.word));
+        ModelData {
+            char_ngram_model,
+            type_ngram_model,
+            dict_model,
+            bias: i32::from(self.bias),
+            char_window_size: self.char_w,
+            type_window_size: self.type_w,
+            tag_models: vec![],
+        }
+    }
+}
+
+/// Sorted copy of a converted model (the converter's entry order follows its trie walk).
+pub fn normalised(m: &ModelData) -> ModelData {
+    let mut m = m.clone();
+    m.char_ngram_model.sort_by(|a, b| a.ngram.cmp(&b.ngram));
+    m.type_ngram_model.sort_by(|a, b| a.ngram.cmp(&b.ngram));
+    m.dict_model.sort_by(|a, b| a.word.cmp(&b.word));
+    m
+}
+
+fn w16(rng: &mut Rng) -> i16 {
+    match rng.below(10) {
+        0 => i16::MAX,
+        1 => i16::MIN,
+        2 => 0,
+        _ => rng.range(-2000, 2000) as i16,
+    }
+}
+
+pub fn gen_spec(rng: &mut Rng) -> (KyteaSpec, Vec<Vec<char>>) {
+    let asize = rng.urange(2, 6);
+    let alpha = text::alphabet(rng, asize, text::Flavor::Any);
+    let mut texts = vec![];
+    for _ in 0..rng.urange(2, 4) {
+        let n = rng.urange(1, 30);
+        texts.push(text::text_from(rng, &alpha, n));
+    }
+    let char_w = rng.urange(1, 4) as u8;
+    let type_w = rng.urange(1, 4) as u8;
+    let dict_n = rng.urange(1, 5) as u8;
+    let n_dicts = rng.urange(0, 8) as u8;
+    let n_tags = rng.below(4) as u32;
+    let mut char_map: Vec<char> = vec!['K', 'T', 'H', 'R', 'D', 'O'];
+    let with_04 = rng.chance(1, 5);
+    if with_04 {
+        char_map.push('\u{4}');
+    }
+    for &c in &alpha {
+        if !char_map.contains(&c) {
+            char_map.push(c);
+        }
+    }
+    let mut char_ngrams: Vec<(Vec<char>, Vec<i16>)> = vec![];
+    let n_char = if rng.chance(1, 12) { 0 } else { rng.urange(1, 10) };
+    for _ in 0..n_char {
+        let t = rng.pick(&texts);
+        let n = rng.urange(1, (2 * usize::from(char_w)).min(t.len()).min(4));
+        let s = rng.below(t.len() - n + 1);
+        let g = t[s..s + n].to_vec();
+        if char_ngrams.iter().any(|x| x.0 == g) {
+            continue;
+        }
+        let len = 2 * usize::from(char_w) - n + 1;
+        char_ngrams.push((g, (0..len).map(|_| w16(rng)).collect()));
+    }
+    let letters = ['D', 'R', 'H', 'T', 'K', 'O'];
+    let mut type_ngrams: Vec<(Vec<char>, Vec<i16>)> = vec![];
+    let n_type = if rng.chance(1, 12) { 0 } else { rng.urange(1, 8) };
+    for _ in 0..n_type {
+        let t = rng.pick(&texts);
+        let n = rng.urange(1, (2 * usize::from(type_w)).min(t.len()).min(4));
+        let s = rng.below(t.len() - n + 1);
+        let mut g: Vec<char> = t[s..s + n].iter().map(|&c| letters[usize::from(text::ctype(c)) - 1]).collect();
+        if with_04 && rng.chance(1, 3) {
+            let i = rng.below(g.len());
+            g[i] = '\u{4}';
+        }
+        if type_ngrams.iter().any(|x| x.0 == g) {
+            continue;
+        }
+        let len = 2 * usize::from(type_w) - n + 1;
+        type_ngrams.push((g, (0..len).map(|_| w16(rng)).collect()));
+    }
+    let mut words: Vec<(Vec<char>, u8)> = vec![];
+    for _ in 0..rng.below(8) {
+        let t = rng.pick(&texts);
+        let n = rng.urange(1, t.len().min(7));
+        let s = rng.below(t.len() - n + 1);
+        let w = t[s..s + n].to_vec();
+        if words.iter().any(|x| x.0 == w) {
+            continue;
+        }
+        let mask = if n_dicts == 0 { 0 } else { (rng.below(256) as u8) & (((1u16 << n_dicts) - 1) as u8) };
+        words.push((w, mask));
+    }
+    let dict_vec: Vec<i16> = (0..3 * usize::from(dict_n) * usize::from(n_dicts)).map(|_| rng.range(-3000, 3000) as i16).collect();
+    let spec = KyteaSpec {
+        char_w,
+        type_w,
+        dict_n,
+        n_tags,
+        char_map,
+        char_ngrams,
+        type_ngrams,
+        bias: w16(rng),
+        n_dicts,
+        dict_vec,
+        words,
+        extra_weights: if rng.chance(1, 3) { rng.urange(1, 3) } else { 0 },
+        with_subword_dict: rng.chance(1, 2),
+        with_self_dict: rng.chance(1, 2),
+        trailing: (0..rng.below(9)).map(|_| rng.below(256) as u8).collect(),
+    };
+    (spec, texts)
+}
